@@ -4,10 +4,10 @@ import MuscleModel.Reflector.MirrorProofs24
 # C04 lemmas, part 25: `Story` — every command class, arrivals without hypothesis
 
 `StoryCmd sid sv a c`: what is asked of a command `c` of session `a` in state `sv` for the subscriber `sid`:
-SETDATA within the depth bound (with the index flag: another session's); REMOVEDATA: nothing; INSERTORDEREDDATA /
-REORDERDATA: another session's (and the insert traversal within the depth bound); everything else: a quiet command
-(`QuietCmd`) that is `CmdOK`.  NOT in `Story`: SUBSCRIBE / unsubscribe / parameter commands of `sid` itself, and its own
-index commands.  `Story sid`: such commands, pushes, departures of others, arrivals (no hypothesis: `HK`).
+SETDATA (with or without the index flag) within the depth bound; REMOVEDATA, REORDERDATA: nothing; INSERTORDEREDDATA: the
+insert traversal within the depth bound; everything else: a quiet command (`QuietCmd`) that is `CmdOK`.  The index
+commands may be the subscriber's own.  NOT in `Story`: SUBSCRIBE / unsubscribe / parameter commands of `sid` itself (they
+are steps of `Run` / `Run2`).  `Story sid`: such commands, pushes, departures of others, arrivals (no hypothesis: `HK`).
 -/
 
 set_option linter.unusedSimpArgs false
@@ -18,10 +18,10 @@ open Muscle Muscle.Eng.SrvEngine
 
 def StoryCmd (sid : Nat) (sv : Server) (a : Nat) : Cmd → Prop
   | .set path _ false => SetOK path
-  | .set path _ true => a ≠ sid ∧ SetOK path
+  | .set path _ true => SetOK path
   | .rm _ => True
-  | .ins key _ _ => a ≠ sid ∧ InsDepthOK sv a key
-  | .reorder _ _ => a ≠ sid
+  | .ins key _ _ => InsDepthOK sv a key
+  | .reorder _ _ => True
   | c => QuietCmd sid a c ∧ CmdOK c
 
 def Inv2 (sv : Server) : Prop := Inv sv ∧ HK sv
@@ -35,10 +35,10 @@ theorem storyCmd_sync {sid : Nat} {sv : Server} (h : Inv sv) (a : Nat) (c : Cmd)
   | set path x ati =>
     cases ati with
     | false => exact (syncAll_set h.2 a path hc x).1.for sid
-    | true => exact (syncFor_setIndexed hc.1 h.2 path hc.2 x).1
+    | true => exact (syncFor_setIndexed h.2 path hc x).1
   | rm keys => exact (syncAll_removeData h a keys).1.for sid
-  | ins key before vals => exact (syncFor_insertOrdered hc.1 h.2 key before vals hc.2).1
-  | reorder key before => exact (quiet_reorder hc sv key before).syncFor
+  | ins key before vals => exact (syncFor_insertOrdered h.2 key before vals hc).1
+  | reorder key before => exact (quiet_reorder sid a sv key before).syncFor
   | sub path f => exact (quiet_runCmd sv _ hc.1).syncFor
   | unsub path => exact (quiet_runCmd sv _ hc.1).syncFor
   | paramSelf => exact (quiet_runCmd sv _ hc.1).syncFor
@@ -87,7 +87,7 @@ theorem CReach.inv2 {sv : Server} (h : CReach sv) : Inv2 sv := ⟨h.inv, h.hk⟩
 theorem converges_story_core {sid : Nat} {sv sv' : Server} (hh : Story sid sv sv') (h : Inv2 sv) {s : Sess}
     (hs : sv.sess? sid = some s) (hen : s.subsEnabled = true) (hq : pend s = {})
     (hq' : ∀ s', sv'.sess? sid = some s' → pend s' = {}) (m : Mirror) (hm : MirrorOK sv s m) :
-    ∃ s' sent, sv'.sess? sid = some s' ∧ s'.core = s.core ∧ dataLines s' = dataLines s ++ sent.map dataText ∧
+    ∃ s' sent, sv'.sess? sid = some s' ∧ s'.vcore = s.vcore ∧ dataLines s' = dataLines s ++ sent.map dataText ∧
       MirrorOK sv' s' (applyMsgs m sent) ∧ Inv2 sv' := by
   obtain ⟨hsync, hinv'⟩ := story_sync hh h
   obtain ⟨evs, hsy⟩ := hsync s hs hen m
